@@ -82,7 +82,8 @@ HELPERS = {
             (AM + 'mutation', ['base_step', 'compound_step']),
             (AM + 'structural', ['interval_step', 'compound_step']),
             (CM + 'mcmc', ['mh_options', 'gibbs_options', 'compound_step', 'mcmc_sampler']),
-            (PM + 'mcmc', ['metropolis_hastings_probabilities', 'gibbs_probabilities', 'allele_step', 'pair_allele_swap_step']),
+            (PM + 'mcmc', ['metropolis_hastings_probabilities', 'gibbs_probabilities', 'allele_step', 'pair_allele_swap_step', 'compound_step',
+                           'mcmc_sampler']),        # where the pedigree cache is created and how long it lives
             (CM + 'likelihood', ['log_likelihood_alleles_cached']),
             (PM + 'likelihood', ['log_likelihood_alleles_cached']),
             (AM + 'mcmc', ['_denovo_assembler']),
@@ -236,6 +237,8 @@ SLICES = {
     'C15': [('assemble', 'construction and fit of the assembly sampler', [AM + 'mcmc.DenovoMCMC'], None)],
     'C02': [('call', 'construction, fit and burn-in of the calling sampler', [CM + 'classes.CallingMCMC', CM + 'classes.GenotypeAllelesMultiTrace.burn'], None),
             (CM + 'classes', 'what fit hands to the sampler', [CM + 'mcmc.mcmc_sampler'], None, None, 'CallingMCMC.fit')],
+    'C09': [(PM + 'classes', 'what fit hands to the sampler (no cache from outside the fit)', [PM + 'mcmc.mcmc_sampler'], None, None, 'PedigreeCallingMCMC.fit'),
+            (CM + 'classes', 'what fit hands to the sampler (no cache from outside the fit)', [CM + 'mcmc.mcmc_sampler'], None, None, 'CallingMCMC.fit')],
     'C03': [('call_exact', 'exact posterior calls and the fields derived from them', [CM + 'exact.', J + '.index_as_genotype_alleles'],
              ['GT', 'GPM', 'GQ', 'SPM', 'SQ', 'AFP', 'ACP', 'AOP', 'GP', 'GL'])],
     'C13': [('assemble', 'haplotype reporting', [AM + 'haplotype_calling.', APP + 'assemble._genotype', 'mchap.mset.categorize'],
